@@ -5,6 +5,7 @@ package engines
 import (
 	"bytes"
 	"crypto/ed25519"
+	"crypto/x509"
 	"fmt"
 	"strings"
 	"time"
@@ -39,8 +40,8 @@ type flowCtx struct {
 	rootsPre *types.RootCertificates
 	// rootsUsable: before the call current was valid, or current had expired and next was valid (no start-over due)
 	rootsUsable bool
-	noRetry  bool
-	lied     bool // one of the injected faults made storage claim an existing record is absent
+	noRetry     bool
+	lied        bool // one of the injected faults made storage claim an existing record is absent
 }
 
 type faultFlow struct {
@@ -81,6 +82,15 @@ func fetchVerify(fc *flowCtx, flow string, viaToken bool) func(err error) {
 			priv := fc.id.EncPriv
 			if !tryOpen(fc.srv, fc.resp, priv, fc.id.Pkix) {
 				fc.v("durable", "response-not-openable/"+flow, "issued response cannot be opened by the requester")
+			}
+			// a success under a storage fault is a complete success: the response carries the current root's signature
+			// like any other (the node is entitled to check it)
+			if roots, lerr := types.LoadRootCertificates(contextBG, fc.srv.Inner, fc.srv.Opts()...); lerr == nil {
+				if pk, perr := x509.ParsePKIXPublicKey(roots.Current.PublicKeyPkix); perr == nil {
+					if epk, ok := pk.(ed25519.PublicKey); ok && !ed25519.Verify(epk, fc.resp.EncryptedNodeCredentials, fc.resp.EncryptedNodeCredentialsSignature) {
+						fc.v("fail-closed", "credentials-handed-out-unsigned/"+flow, "fetch reported success and handed out credentials without a valid signature by the stored current root (signature %d bytes)", len(fc.resp.EncryptedNodeCredentialsSignature))
+					}
+				}
 			}
 			// the response must be built from the stored record's server key
 			if sk := x25519PubOf(rec.ServerEncryptionPrivateKeyBytes); !bytes.Equal(sk, fc.resp.ServerEncryptionPublicKeyBytes) {
